@@ -3,8 +3,13 @@
    N, Z, positive, nat stay the Coq datatypes. *)
 Require Extraction.
 Require Import ExtrOcamlBasic.
-From YV Require Import Base.Bytes Model.Arena.
+From YV Require Import Base.Bytes Base.CSem Model.Arena gen.GenFold Spec.IntSpec.
 
 Cd "extracted".
-Extraction "model.ml" Arena.save Arena.arena_load Arena.rules_load Arena.wf_arena Arena.cfg_pinned Arena.cfg_current.
+Extraction "model.ml" Arena.save Arena.arena_load Arena.rules_load Arena.wf_arena Arena.cfg_pinned Arena.cfg_current
+  fold_add fold_sub fold_mul fold_div fold_mod fold_bxor fold_band fold_bor fold_shl fold_shr fold_neg fold_bnot
+  vm_of_fold_add vm_of_fold_sub vm_of_fold_mul vm_of_fold_div vm_of_fold_mod vm_of_fold_bxor vm_of_fold_band
+  vm_of_fold_bor vm_of_fold_shl vm_of_fold_shr vm_of_fold_neg vm_of_fold_bnot
+  vm_OP_INT_EQ vm_OP_INT_NEQ vm_OP_INT_LT vm_OP_INT_GT vm_OP_INT_LE vm_OP_INT_GE
+  spec_add spec_sub spec_mul spec_div spec_mod spec_bxor spec_band spec_bor spec_shl spec_shr spec_neg spec_bnot.
 Cd "..".
